@@ -206,6 +206,8 @@ CANARIES = [
     ("ctx-exit-swallow", "c15_ctx", "_utils/__init__.py", "        self.state = self._depth_tracker.pop(self._depth)\n", "        self.state = self._depth_tracker.pop(self._depth)\n        return True\n", r"C15\.ctx\..*(returns_falsy|exception_propagates)"),
     ("noautodiff-wrapper-outside", "c15_ctx", "_utils/graph_tracking.py", "            with self:\n                out = func(*args, **kwargs)", "            out = func(*args, **kwargs)\n            with self:\n                pass", r"C15\.ctx\._NoAutoDiff\.__call__.*body_state"),
     ("memguard-on-value", "c15_ctx", "_utils/lock_management.py", "    _enter_set_value = True", "    _enter_set_value = False", r"C15\.ctx\._WithMemGuard"),
+    ("where-bwd-condition-not-inverted", "c02_elem", "indexing_routines/ops.py", "        condition = self.condition if index == 0 else ~self.condition", "        condition = self.condition", r"C02\.elem\.Where.*\.1.*vjp"),
+    ("where-bwd-passes-everything", "c02_elem", "indexing_routines/ops.py", "        return np.where(condition, grad, 0)", "        return grad", r"C02\.elem\.Where.*vjp"),
     # ---- rearrangement ops (c02_struct) ------------------------------------------------------------------------------------
     ("transpose-bwd-no-argsort", "c02_struct", "tensor_manip/transpose_like/ops.py", "            grad = grad.transpose(np.argsort(self.axes))", "            grad = grad.transpose(self.axes)", r"C02\.struct\.Transpose\[r3.*\.vjp"),
     ("transpose-axes-not-normalised", "c02_struct", "tensor_manip/transpose_like/ops.py", "            self.axes = tuple(axis % a.ndim for axis in axes)", "            self.axes = tuple(axes)", r"C02\.struct\.Transpose\[r[23],axes=.*-.*\.(vjp|grad_shape)"),
